@@ -369,11 +369,18 @@ class Facts:
             raise AnchorMissing("fact file missing: " + p)
         self.j = json.load(open(p))
         self.fn_renamed = {}
+        self.inlined = {}
         if which == "lib" and os.environ.get("PFA_NO_VARNAMES") != "1":
             self._canonical_function_names(p)
             self._canonical_const_names()
+            self.inlined = {}
+            rp = os.path.join(os.path.dirname(os.path.dirname(os.path.abspath(__file__))), "reference", "fnnames.json")
+            if os.path.exists(rp) and os.environ.get("PFA_NO_INLINE") != "1":
+                from .inline import inline_new_helpers
+                self.inlined = inline_new_helpers(self.j, set(json.load(open(rp))))
         self.which = which
-        self.bodies = {k: Body(k, v) for k, v in self.j["bodies"].items()}
+        # a new helper that was spliced into all of its callers is represented by those copies only
+        self.bodies = {k: Body(k, v) for k, v in self.j["bodies"].items() if k not in getattr(self, "inlined", {})}
         self.const_bodies = {k: Body(k, v) for k, v in self.j.get("const_bodies", {}).items()}
         self.instances = self.j["instances"]
         self.by_name = {}
@@ -480,6 +487,9 @@ class Facts:
             if b is None:
                 continue
             cur = [(i, l.get("name"), l.get("ty")) for i, l in enumerate(b.locals) if l.get("name")]
+            # the names rules may rely on; a user variable that is not one of them (a value cached in a new local) is looked
+            # through by the named descriptors, like a compiler temporary
+            b.ref_names = {r[0] for r in rvars}
             if sorted(n for _, n, _ in cur) == sorted(r[0] for r in rvars):
                 continue
             # occurrence-aware identity matching first
